@@ -150,6 +150,9 @@ func verifyFunction(P *Program, db *ContractDB, fn *ssa.Function, c *Contract, v
 	for _, r := range c.Requires {
 		e.assume(ctx.evalBool(r.Expr))
 	}
+	for _, r := range c.Entry {
+		e.assume(ctx.evalBool(r.Expr))
+	}
 	fr.entry = st.snapshot()
 	// vacuity: the pre-condition must be satisfiable
 	if !sol.Feasible() {
@@ -193,6 +196,9 @@ func (e *Exec) entryCtx(st *State, fr *Frame) *SpecCtx {
 		pt := fv.Type().Underlying().(*types.Pointer).Elem()
 		cell := fr.env[fv]
 		ctx.vars[fv.Name()] = &specVar{get: func(c *SpecCtx) (Val, types.Type) { return c.loadAt(cell, pt), pt }}
+	}
+	for k, v := range e.shapeVars {
+		ctx.vars[k] = v
 	}
 	// method / functype contracts name their parameters themselves
 	if fr.fn == e.top && e.topC != nil {
